@@ -130,7 +130,8 @@ class Site:
                 return f"target file missing {url!r} -> {target}", target, frag
         if frag:
             pg = self.pages.get(target)
-            if pg is not None and frag not in pg.ids:
+            # HTML: the fragment is first compared as it stands, then percent-decoded
+            if pg is not None and u.fragment not in pg.ids and frag not in pg.ids:
                 return f"fragment missing {url!r} (#{frag} not in {target})", target, frag
         return None, target, frag
 
